@@ -73,6 +73,61 @@ def eval_lines(pid, header, exprs, tag, per_file):
         return cm.coq_eval_lines(pid, header, exprs, tag=tag + "_retry", per_file=max(10, per_file // 4), timeout=3600)
 
 
+# default arguments of the 34 public functions that the models assume (the models take epsilon as a parameter, which the
+# harness fills with these values; loop bounds such as max_iter are literals of the model): re-read from the source by a
+# fail-closed ast reader on every run, so that a changed default is a broken correspondence even before an input is found
+# on which it matters
+EXPECTED_DEFAULTS = {
+    "point_to_plane": {"signed": False},
+    "point_to_circle": {"epsilon": 1e-6},
+    "point_to_ellipsoid": {"distance_to_surface": False, "epsilon": 1e-16, "max_iter": 64},
+    "line_to_line": {"epsilon": 1e-6}, "line_to_line_segment": {"epsilon": 1e-6},
+    "line_segment_to_line_segment": {"epsilon": 1e-6},
+    "line_to_plane": {"epsilon": 1e-6}, "line_segment_to_plane": {"epsilon": 1e-6}, "plane_to_plane": {"epsilon": 1e-6},
+    "line_to_triangle": {"epsilon": 1e-6}, "line_segment_to_triangle": {"epsilon": 1e-6}, "triangle_to_triangle": {"epsilon": 1e-6},
+    "line_to_rectangle": {"epsilon": 1e-6}, "line_segment_to_rectangle": {"epsilon": 1e-6},
+    "rectangle_to_rectangle": {"epsilon": 1e-6}, "rectangle_to_box": {"epsilon": 1e-6},
+    "disk_to_disk": {"epsilon": 1e-8},
+}
+
+
+def source_defaults():
+    """{function: {argument: default}} of the functions of distance3d.distance.__all__, read from the source files of the tree
+    under test with ast (no import); raises on anything it does not understand"""
+    import ast
+    out = {}
+    d = cm.REPO / "distance3d" / "distance"
+    for f in sorted(d.glob("_*.py")):
+        tree = ast.parse(f.read_text())
+        for n in tree.body:                      # top-level definitions only
+            if isinstance(n, ast.FunctionDef) and n.name in pl.FUNCS:
+                names = [a.arg for a in n.args.args]
+                defs = n.args.defaults
+                out[n.name] = {nm: ast.literal_eval(v) for nm, v in zip(names[len(names) - len(defs):], defs)}
+                if n.args.kwonlyargs or n.args.vararg or n.args.kwarg:
+                    raise ValueError(f"unexpected signature shape of {n.name}")
+    missing = [fn for fn in pl.FUNCS if fn not in out]
+    if missing:
+        raise ValueError(f"functions not found in the source: {missing}")
+    return out
+
+
+def check_defaults(R):
+    try:
+        got = source_defaults()
+    except Exception as e:      # fail closed
+        R.corr_broken.append(f"default-argument reader failed on the source: {type(e).__name__}: {str(e)[:200]}")
+        return
+    diffs = []
+    for fn in pl.FUNCS:
+        want = EXPECTED_DEFAULTS.get(fn, {})
+        if got.get(fn, {}) != want:
+            diffs.append(f"{fn}: source {got.get(fn, {})} vs model {want}")
+    R.cov["source_defaults_pinned"] = sum(len(v) for v in EXPECTED_DEFAULTS.values())
+    if diffs:
+        R.corr_broken.append("default arguments of the source differ from what the models assume: " + "; ".join(diffs[:4]))
+
+
 def fx(x):
     return cm.fhex(float(x))
 
@@ -182,6 +237,7 @@ def maxdiff(a, b):
 
 def correspondence(R, pid, cases, results, tier):
     R.cov["modelled"] = MODELLED
+    check_defaults(R)
     idx = [i for i, c in enumerate(cases) if c["fn"] in ARMS and "exc" not in results[i]]
     exprs = [model_expr(cases[i]) for i in idx]
     try:
